@@ -193,7 +193,17 @@ func ModuleCopies(copies int) ([]byte, []Fn) {
 	for c := 1; c < copies; c++ {
 		for k := 0; k < n; k++ {
 			m.M.FunctionSection = append(m.M.FunctionSection, m.M.FunctionSection[k])
-			m.M.CodeSection = append(m.M.CodeSection, m.M.CodeSection[k])
+			code := m.M.CodeSection[k]
+			if c >= 2 {
+				// from the third copy on every function first stores a (distinct) vector constant: the function has
+				// constant-pool entries of its own before the instruction under test asks for its constants
+				pre := wb.Cat(wb.I32Const(4000), []byte{wasm.OpcodeVecPrefix, wasm.OpcodeVecV128Const}, make([]byte, 16), []byte{wasm.OpcodeVecPrefix, wasm.OpcodeVecV128Store, 0, 0})
+				for i := 0; i < 16; i++ {
+					pre[len(wb.I32Const(4000))+2+i] = byte(0x11*c + k + 3*i + 1)
+				}
+				code.Body = append(append([]byte{}, pre...), code.Body...)
+			}
+			m.M.CodeSection = append(m.M.CodeSection, code)
 			m.M.ExportSection = append(m.M.ExportSection, wasm.Export{Name: fmt.Sprintf("op%d", c*n+k), Type: wasm.ExternTypeFunc, Index: uint32(c*n + k)})
 			fns = append(fns, fns[k])
 		}
